@@ -5,7 +5,7 @@
    as TryEval's meaning is concerned); that Eval itself returns the value, and that the printed text compiles, is
    checked on the real code on every run; (b) at level 0 the generated text is a bare leaf that prefix Compile
    rejects - a recorded finding (known_findings.json). *)
-Require Import Base Opcode Tables Ops Tree Opt Flat Run TryFacts Gen GenProofs.
+Require Import Base Opcode Tables Ops Tree Opt Flat Run TryFacts Gen GenProofs EvalDefs EvalTop TryCorrect.
 Open Scope Z_scope.
 
 (* for every level, every stream of draws, both result types, every option combination and variable lists whose
@@ -22,6 +22,16 @@ Proof. exact generate_kleene. Qed.
 Theorem C20_reported_is_trysem : forall c, wf_cfg c -> forall isb level s,
   let r := generate c isb level s in snd (trysem (gfetch c) no_custom (gcached c) (fst r)) = Ok (snd r).
 Proof. exact generate_trysem. Qed.
+
+(* machine level: TryEval of the compiled generated expression (model of Expr.TryEval on the flat program) returns the
+   reported result *)
+Theorem C20_reported_is_tryeval : forall c, wf_cfg c -> forall isb level s,
+  let r := generate c isb level s in
+  snd (tryeval (gfetch c) no_custom (gcached c) (compile (fst r))) = MVal (snd r).
+Proof.
+  intros c Hc isb level s r. rewrite tryrun_compile_correct. unfold sem_obs. cbn [snd].
+  unfold r. rewrite (generate_trysem c Hc isb level s). reflexivity.
+Qed.
 
 (* the generator's own operator evaluation is the Kleene combination whenever that is defined *)
 Theorem C20_exec_is_comb : forall op vals r,
@@ -41,3 +51,4 @@ Example C20_ex : snd (generate c0 true 3 [5; 3; 2; 7; 1; 4; 9; 1; 60; 2; 0; 8; 1
 Proof. vm_compute. discriminate. Qed.
 
 Print Assumptions C20_reported_is_kleene.
+Print Assumptions C20_reported_is_tryeval.
